@@ -153,6 +153,11 @@ func (c *RedisCache) Get(ctx context.Context, k []byte) (storedTime, expireTime 
 
 	storedTime = time.Unix(int64(binary.BigEndian.Uint64(b[:8])), 0)
 	expireTime = time.Unix(int64(binary.BigEndian.Uint64(b[8:16])), 0)
+	if !expireTime.After(time.Now()) {
+		// The key outlived its value, e.g. it was written late by the
+		// async store loop after the server was unreachable for a while.
+		return time.Time{}, time.Time{}, nil
+	}
 	v = b[16:]
 	return
 }
